@@ -19,8 +19,16 @@ class InstanceLayer:
 
 
 class T(unittest.TestCase):
+    nid = 0
+
     def runTest(self):
         pass
+
+    def id(self):
+        return 'impl_c09.T%d.runTest' % self.nid
+
+    def __str__(self):
+        return 'runTest (impl_c09.T%d)' % self.nid
 
 
 def run(c):
@@ -39,6 +47,7 @@ def run(c):
             return s
         if node['k'] == 'case':
             s = T()
+            s.nid = node['id']
             ids[id(s)] = node['id']
         else:
             s = unittest.TestSuite([build(k) for k in node['kids']])
@@ -54,6 +63,19 @@ def run(c):
     items = []
     for test, lname in tests_from_suite(root, options):
         items.append([ids[id(test)], None if lname is None else names.index(lname)])
+    # the same selection through find_tests (the caller that builds the per-layer suites): it must select exactly
+    # what tests_from_suite yields for the suite, whatever level the suite itself declares
+    import zope.testrunner.find as _find
+    saved = _find.remove_stale_bytecode
+    _find.remove_stale_bytecode = lambda o: None
+    try:
+        by_layer = _find.find_tests(options, found_suites=[root])
+        via = sorted([ids[id(t)], None if ln is None else names.index(ln)] for ln, su in by_layer.items() for t in su)
+        if via != sorted(items):
+            # report what find_tests selected (tree order = ascending node id), so that the difference reaches the model comparison
+            items = sorted(via, key=lambda it: it[0])
+    finally:
+        _find.remove_stale_bytecode = saved
 
     class R:
         pass
